@@ -231,6 +231,21 @@ func runMerge(which string) func(ci interface{}, a *run.Acc) {
 			a.Outcome("violation")
 			return
 		}
+		if c.Menu == "fsets" {
+			// the inputs of the merge are still segments of their own: reading them after the
+			// merge gives what it gave before (a merge must not write to its inputs)
+			for i, in := range ev.InSegs {
+				got, err := dump.Segment(in, dump.UniverseOf(ev.InExps[i]))
+				if err != nil {
+					a.Violation("input-damaged:"+class, fmt.Sprintf("%s: input %d cannot be read after the merge: %v", c.E, i, err))
+					return
+				}
+				if d := zx.Compare(ev.InExps[i], got, ref.All); d != "" {
+					a.Violation("input-damaged:"+class, fmt.Sprintf("%s: input %d answers differently after the merge:\n%s", c.E, i, d))
+					return
+				}
+			}
+		}
 		a.Outcome(fmt.Sprintf("ok/depth=%d/survivors=%d", c.E.Depth(), min(ev.Exp.Count, 3)))
 	}
 }
@@ -426,7 +441,7 @@ func textBounds(tier string) mergeBounds {
 	return mergeBounds{maxLen1: 3, triples: nil, modes: []uint32{1, 2, 1024, 1026}, depth2: true, d2Menu: []int{0, 1, 2, 3, 4, 5, 6, 7, 8, 9}, depth3: true, fullDrops: false}
 }
 
-var mergeRule = "explicit-state exploration of the merge state space on the real code: states = segments reachable from a 10-item segment menu (frequencies / lengths / location values at varint boundaries; a gap between stored fields and seven array-positioned stored values in one document; a frequency-0 term with locations in two documents and a doc-value field without tokens; empty batch; single doc with a single-hit-eligible term; two 2-doc batches with identical field lists (byte-copy paths); overlapping field list with a composite field whose locations name other fields; disjoint field list with long array positions and the empty term; 3-doc batch with a field-less document and an id shared with another item), each input built in memory or persisted+re-opened; transitions = Merge(ordered list of <=3 states, one drop bitmap per input) for EVERY drop vector over {nil, empty, every subset} at depth 1, and {nil, empty, singletons, complements, all} for inputs with >3 documents at depth >= 2; chunk modes as bounded. Depth-1 results are deduplicated by canonical state key (semantic dump + per-term single-hit encoding class + chunk mode) computed from the reference model and cross-checked against the key observed on the implementation; each distinct state is merged again (alone, with menu items on either side) at depth 2 (and once more at depth 3 in thorough). A successor is computed by replaying the whole expression on fresh objects. Plus a 'big' family: merges of 600..1030-document segments (a one-document segment lacking the term; two 700-document segments whose every document has the empty term) whose surviving cardinality of a term crosses 1024 - the boundary of the cardinality-dependent chunk-size rules - through inputs and drops, in both input orders, in memory and re-opened, chunk modes 1024/1025/1026, incl. a second merge of a result sitting at the boundary. Plus a 'pairs' family that reuses the BUILD alphabets as merge inputs: every ordered pair of single-document batches of the 12-entry cell menu over two fields (C06: 144 x 144 pairs; quick: a third of them) resp. of the 9-entry stored-field menu (C05: 81 x 81 pairs) is merged, and for a reduced sub-menu also with re-opened inputs, with either input dropped, and merged a second time with a third document. Plus (C06) a 'cols' family: every 3-document segment whose documents draw one field from the 12-entry cell menu (1727 segments) is merged alone under every non-empty drop vector (chunk mode 1026; mode 2 and re-opened inputs for the reduced menu, for all in thorough), so that a term's hits lose their first, a middle or their last member for every combination of hit shapes. Non-trivial = merge with >= 1 survivor."
+var mergeRule = "explicit-state exploration of the merge state space on the real code: states = segments reachable from a 10-item segment menu (frequencies / lengths / location values at varint boundaries; a gap between stored fields and seven array-positioned stored values in one document; a frequency-0 term with locations in two documents and a doc-value field without tokens; empty batch; single doc with a single-hit-eligible term; two 2-doc batches with identical field lists (byte-copy paths); overlapping field list with a composite field whose locations name other fields; disjoint field list with long array positions and the empty term; 3-doc batch with a field-less document and an id shared with another item), each input built in memory or persisted+re-opened; transitions = Merge(ordered list of <=3 states, one drop bitmap per input) for EVERY drop vector over {nil, empty, every subset} at depth 1, and {nil, empty, singletons, complements, all} for inputs with >3 documents at depth >= 2; chunk modes as bounded. Depth-1 results are deduplicated by canonical state key (semantic dump + per-term single-hit encoding class + chunk mode) computed from the reference model and cross-checked against the key observed on the implementation; each distinct state is merged again (alone, with menu items on either side) at depth 2 (and once more at depth 3 in thorough). A successor is computed by replaying the whole expression on fresh objects. Plus a 'big' family: merges of 600..1030-document segments (a one-document segment lacking the term; two 700-document segments whose every document has the empty term) whose surviving cardinality of a term crosses 1024 - the boundary of the cardinality-dependent chunk-size rules - through inputs and drops, in both input orders, in memory and re-opened, chunk modes 1024/1025/1026, incl. a second merge of a result sitting at the boundary. Plus a 'pairs' family that reuses the BUILD alphabets as merge inputs: every ordered pair of single-document batches of the 12-entry cell menu over two fields (C06: 144 x 144 pairs; quick: a third of them) resp. of the 9-entry stored-field menu (C05: 81 x 81 pairs) is merged, and for a reduced sub-menu also with re-opened inputs, with either input dropped, and merged a second time with a third document. Plus a 'field sets' family: 16 single-document segments, one per subset of the field names {a,b,c,d}; every ordered pair (nothing dropped, either document dropped, in memory and re-opened) and every ordered triple (nothing dropped; middle document dropped) is merged - every combination of equal / prefix / disjoint / interleaved field lists - and after each of these merges every INPUT is dumped again and must still equal its own reference. Plus (C06) a 'cols' family: every 3-document segment whose documents draw one field from the 12-entry cell menu (1727 segments) is merged alone under every non-empty drop vector (chunk mode 1026; mode 2 and re-opened inputs for the reduced menu, for all in thorough), so that a term's hits lose their first, a middle or their last member for every combination of hit shapes. Non-trivial = merge with >= 1 survivor."
 
 func init() {
 	for _, which := range []string{"C05", "C06"} {
@@ -444,6 +459,7 @@ func init() {
 			Gen: func(tier string, emit func(interface{})) {
 				genMerges("text", textBounds(tier), func(c enum.MergeCase) { emit(c) })
 				genBigMerges(tier, func(c enum.MergeCase) { emit(c) })
+				genFieldSetMerges(tier, func(c enum.MergeCase) { emit(c) })
 				if which == "C06" {
 					genPairMerges("cells1", tier, func(c enum.MergeCase) { emit(c) })
 					genColMerges(tier, func(c enum.MergeCase) { emit(c) })
@@ -610,6 +626,35 @@ func genAlphabetMerges(menuName string, kinds int, tier string, emit func(enum.M
 					Drops: [][]int{d, nil}, DropOK: []bool{dropFirst, false}}})
 				emit(enum.MergeCase{Menu: menuName, Mode: 1026, E: enum.Expr{In: []enum.Expr{enum.L(j, false), enum.L(i, !dropFirst)},
 					Drops: [][]int{nil, d}, DropOK: []bool{false, dropFirst}}})
+			}
+		}
+	}
+}
+
+// genFieldSetMerges: every ordered pair and triple of the 16 field-set segments (fsets),
+// nothing dropped; pairs also with either document dropped, triples also with the middle
+// document dropped (a dropped input still contributes its fields); inputs in memory, and
+// re-opened for the pairs.
+func genFieldSetMerges(tier string, emit func(enum.MergeCase)) {
+	n := len(enum.Menu("fsets"))
+	mk := func(ins []enum.Expr, drops [][]int) enum.Expr {
+		ok := make([]bool, len(ins))
+		for i := range drops {
+			ok[i] = drops[i] != nil
+		}
+		return enum.Expr{In: ins, Drops: drops, DropOK: ok}
+	}
+	for i := 0; i < n; i++ {
+		for j := 0; j < n; j++ {
+			emit(enum.MergeCase{Menu: "fsets", Mode: 1026, E: mk([]enum.Expr{enum.L(i, false), enum.L(j, false)}, [][]int{nil, nil})})
+			emit(enum.MergeCase{Menu: "fsets", Mode: 1026, E: mk([]enum.Expr{enum.L(i, true), enum.L(j, true)}, [][]int{{}, nil})})
+			emit(enum.MergeCase{Menu: "fsets", Mode: 1026, E: mk([]enum.Expr{enum.L(i, false), enum.L(j, true)}, [][]int{{0}, nil})})
+			emit(enum.MergeCase{Menu: "fsets", Mode: 1026, E: mk([]enum.Expr{enum.L(i, true), enum.L(j, false)}, [][]int{nil, {0}})})
+			for k := 0; k < n; k++ {
+				emit(enum.MergeCase{Menu: "fsets", Mode: 1026, E: mk([]enum.Expr{enum.L(i, false), enum.L(j, false), enum.L(k, false)}, [][]int{nil, nil, nil})})
+				if tier == "thorough" || (i+j+k)%2 == 0 {
+					emit(enum.MergeCase{Menu: "fsets", Mode: 1026, E: mk([]enum.Expr{enum.L(i, false), enum.L(j, true), enum.L(k, false)}, [][]int{nil, {0}, {}})})
+				}
 			}
 		}
 	}
